@@ -91,18 +91,40 @@ def _key_dispatch(body):
                 return (K, test.left.id, a, o) if isinstance(test.ops[0], ast.Eq) else (K, test.left.id, o, a)
         return None
 
+    def arm_value(arm, kv):
+        """the value an arm stores under out[k] (its last statement), with the arm's own named intermediates written out"""
+        if not arm or not isinstance(arm[-1], ast.Assign) or not isinstance(arm[-1].targets[0], ast.Subscript) or norm(arm[-1].targets[0].slice) != kv:
+            return None, None
+        v = arm[-1].value
+        local = {norm(x.targets[0]): x.value for x in arm[:-1] if isinstance(x, ast.Assign) and len(x.targets) == 1 and isinstance(x.targets[0], ast.Name)}
+        if len(local) != len(arm) - 1:
+            return None, None
+        from ..core.inline import _Subst, clone
+        for _ in range(3):
+            v = _Subst(local).visit(clone(v))
+        return arm[-1], v
+
     for st in body:
         for n in ast.walk(st):
+            kv = vv = D = None
             if isinstance(n, ast.For) and isinstance(n.iter, ast.Call) and isinstance(n.iter.func, ast.Attribute) and n.iter.func.attr == "items" \
                     and isinstance(n.target, ast.Tuple) and len(n.target.elts) == 2:
                 kv, vv = [norm(e) for e in n.target.elts]
+                D = norm(n.iter.func.value)
+            elif isinstance(n, ast.For) and isinstance(n.target, ast.Name) and ((isinstance(n.iter, ast.Call) and isinstance(n.iter.func, ast.Attribute) and n.iter.func.attr == "keys" and not n.iter.args)
+                                                                                or isinstance(n.iter, ast.Name)):
+                kv = n.target.id       # for k in D / D.keys(): the value is D[k]
+                D = norm(n.iter.func.value) if isinstance(n.iter, ast.Call) else n.iter.id
+                vv = f"{D}[{kv}]"
+            if kv is not None:
                 g = [x for x in n.body if isinstance(x, ast.If)]
-                if len(g) == 1 and len(g[0].body) == 1 and len(g[0].orelse) == 1 and isinstance(g[0].body[0], ast.Assign) and isinstance(g[0].orelse[0], ast.Assign):
-                    a, o = g[0].body[0], g[0].orelse[0]
-                    if all(isinstance(x.targets[0], ast.Subscript) and norm(x.targets[0].slice) == kv for x in (a, o)) and norm(a.targets[0].value) == norm(o.targets[0].value):
-                        r = split(g[0].test, a.value, o.value)
+                if len(g) == 1 and len(n.body) == 1 and g[0].body and len(g[0].orelse) >= 1:
+                    a, av = arm_value(g[0].body, kv)
+                    o, ov = arm_value(g[0].orelse, kv)
+                    if a is not None and o is not None and norm(a.targets[0].value) == norm(o.targets[0].value):
+                        r = split(g[0].test, av, ov)
                         if r and r[1] == kv:
-                            return r[0], kv, vv, norm(n.iter.func.value), r[2], r[3]
+                            return r[0], kv, vv, D, r[2], r[3]
             if isinstance(n, ast.DictComp) and len(n.generators) == 1 and not n.generators[0].ifs:
                 g = n.generators[0]
                 if isinstance(g.iter, ast.Call) and isinstance(g.iter.func, ast.Attribute) and g.iter.func.attr == "items" and isinstance(g.target, ast.Tuple) and len(g.target.elts) == 2:
